@@ -240,10 +240,54 @@ def c01Newick (bytes : List UInt8) : Option Readers.ROut :=
   | .panic m => some (.panic m)
   | .unrep _ => none
 
+/-- fidelity figure (decides nothing): every delivered tree equals the model's EXACTLY (child order, branch ids) -/
+def exactOut (m : Readers.ROut) (recs : List ObsRec) : Bool :=
+  match m with
+  | .ok rs =>
+    rs.length == recs.length && (rs.zip recs).all fun (m, o) =>
+      match m.tree with
+      | some (t, nonfin) => nonfin || (match T.undump o.dump with | some u => u == t | none => false)
+      | none => !o.isTree
+  | _ => true
+
+def bufSize' (s : String) : Nat := match s.toNat? with | some n => if n < 16 then 4096 else n | none => 4096
+
+/-- obs_P of a reader entry point on the given bytes: the model(s) against the implementation -/
+def tieModel (fmt bufsize : String) (bytes : List UInt8) (decoded outcome : String) (recs : List ObsRec) : Option String :=
+  match fmt with
+  | "newick" =>
+    match tieOut (Readers.newickOne bytes) outcome recs with
+    | some d => some d
+    | none =>
+      -- the model of C01 must agree with the code as well
+      match c01Newick bytes with
+      | some o => (tieOut o outcome recs).map ("C01 " ++ ·)
+      | none => none
+  | "multi" =>
+    -- the records travel through the channel model under a schedule derived from the input
+    match Readers.multiNewick (Readers.chunksOf (bufSize' bufsize) bytes) with
+    | .ok rs => tieOut (.ok (Chan.simulate (Chan.schedOf 48 (bytes.foldl (fun a b => a * 31 + b.toNat) 7)) rs).got) outcome recs
+    | o => tieOut o outcome recs
+  | "nexus" => tieOut (Readers.nexusOne bytes) outcome recs
+  | "nexusm" => tieOut (Readers.nexusMulti bytes) outcome recs
+  | _ => tieDecoded fmt decoded outcome recs
+
 def bufSize (s : String) : Nat := match s.toNat? with | some n => if n < 16 then 4096 else n | none => 4096
 
 def handle (op : String) (f : List String) : Verdict :=
   match op, f with
+  | "readln", [bufsize, input, lines] =>
+    match unescapeToBytes input with
+    | some bytes =>
+      let m := Readers.readLines (Readers.chunksOf (bufSize bufsize) bytes)
+      let tags := ["readln"] ++ tagIf (m.length ≥ 2) "nontrivial"
+      -- compared as escaped byte strings (the lines may hold any byte)
+      let enc (l : List UInt8) : String := String.join (l.map fun b =>
+        let c := Char.ofNat b.toNat
+        if b < 128 && rawChar c then c.toString else "%" ++ (hexDigit (b.toNat / 16)).toString ++ (hexDigit (b.toNat % 16)).toString)
+      let mine := joinTerm "," (m.map enc)
+      if mine == lines then ⟨.pass, tags, ""⟩ else ⟨.tie, tags, "model Readln: " ++ short mine⟩
+    | none => bad "C02.readln input"
   | "utf8", [input, runes] =>
     match unescapeToBytes input, parseNatList runes with
     | some bytes, some rs =>
@@ -262,8 +306,12 @@ def handle (op : String) (f : List String) : Verdict :=
         | some .nonfinite => "nonfinite"
       let frc := if fr == "nan" || fr == "+inf" || fr == "-inf" then "nonfinite" else fr
       let tags := ["lit"] ++ tagIf (fr != "E") "nontrivial" ++ tagIf (ir != "E") "int"
+      -- the codec of C01 (its own transcription of strconv) on the same literal
+      let gf := if !(Gotree.Newick.goCodec.isFloat s.toList) then "E" else
+        match Gotree.Newick.goCodec.parse s.toList with | some q => showRat q | none => "nonfinite"
       if mi != ir then ⟨.tie, tags, "model ParseInt: " ++ mi⟩
       else if mf != frc then ⟨.tie, tags, "model ParseFloat: " ++ short mf⟩
+      else if gf != frc then ⟨.tie, tags, "C01 goCodec: " ++ short gf⟩
       else ⟨.pass, tags, ""⟩
   | "read", [fmt, bufsize, input, outcome, recsS, decoded] =>
     match unescapeToBytes input, parseRecs recsS with
@@ -287,32 +335,29 @@ def handle (op : String) (f : List String) : Verdict :=
         match bad with
         | r :: _ => ⟨.tie, tags, "model reinit differs on " ++ short r.dump⟩
         | [] =>
-          let tie : Option String :=
-            match fmt with
-            | "newick" =>
-              match tieOut (Readers.newickOne bytes) outcome recs with
-              | some d => some d
-              | none =>
-                -- the model of C01 must agree with the code as well
-                match c01Newick bytes with
-                | some o => (tieOut o outcome recs).map ("C01 " ++ ·)
-                | none => none
-            | "multi" =>
-              -- the records travel through the channel model under a schedule derived from the input
-              match Readers.multiNewick (Readers.chunksOf (bufSize bufsize) bytes) with
-              | .ok rs => tieOut (.ok (Chan.simulate (Chan.schedOf 48 (bytes.foldl (fun a b => a * 31 + b.toNat) 7)) rs).got) outcome recs
-              | o => tieOut o outcome recs
-            | "nexus" => tieOut (Readers.nexusOne bytes) outcome recs
-            | "nexusm" => tieOut (Readers.nexusMulti bytes) outcome recs
-            | _ => tieDecoded fmt decoded outcome recs
+          let tie : Option String := tieModel fmt bufsize bytes decoded outcome recs
           match tie with
-          | none => ⟨.pass, tags, ""⟩
+          | none =>
+            -- fidelity on the small inputs (a second run of the model): exact equality of the dumps
+            let fid : List String :=
+              if bytes.length > 300 then [] else
+              let m : Option Readers.ROut := match fmt with
+                | "newick" => some (Readers.newickOne bytes)
+                | "multi" => some (Readers.multiNewick (Readers.chunksOf (bufSize' bufsize) bytes))
+                | "nexus" => some (Readers.nexusOne bytes)
+                | "nexusm" => some (Readers.nexusMulti bytes)
+                | _ => none
+              match m with
+              | some o => if exactOut o recs then ["fidelity-exact"] else ["fidelity-differs"]
+              | none => []
+            ⟨.pass, tags ++ fid, ""⟩
           | some d => ⟨.tie, tags, d⟩
     | _, _ => bad "C02.read fields"
-  | "cli", [fmt, input, outcome, _nl] =>
+  | "cli", [flag, input, outcome, _nl, transport] =>
     match unescapeToBytes input with
     | some bytes =>
-      let tags := ["cli", "cli-" ++ fmt, "nontrivial"]
+      let fmt := Readers.formatOfFlag flag
+      let tags := ["cli", "cli-" ++ fmt, "cli-via-" ++ transport, "nontrivial"] ++ tagIf (fmt != flag) "cli-format-defaulted"
       if !(outcomeAllowed outcome) then ⟨.oracle, tags, "gotree reformat newick --format " ++ fmt ++ ": " ++ short outcome⟩
       else
         -- the command stops with an error at the first record that carries one
@@ -335,6 +380,37 @@ def handle (op : String) (f : List String) : Verdict :=
     let tags := ["cli", "clicmd", "cli-" ++ fmt, "nontrivial", "cliout-" ++ (if outcomeAllowed outcome then outcome else "crash")]
     if outcomeAllowed outcome then ⟨.pass, tags, ""⟩
     else ⟨.oracle, tags, "gotree " ++ (unescape cmd).getD cmd ++ " --format " ++ fmt ++ " on a malformed / degenerate input: " ++ short outcome⟩
+  | "file", [mode, fmt, _input, outcome, recsS, decoded, openok, effective] =>
+    match unescapeToBytes effective, parseRecs recsS with
+    | some bytes, some recs =>
+      let trees := recs.filter (·.isTree)
+      let tags := ["file", "file-" ++ mode, "file-" ++ fmt, "nontrivial", "out-" ++ (if outcomeAllowed outcome then outcome else "crash")] ++
+        tagIf (trees.length ≥ 1) "delivered" ++ tagIf (openok == "noopen") "file-noopen"
+      if !(readOK outcome recs) then
+        ⟨.oracle, tags, "file-level reader (" ++ mode ++ "): outcome " ++ short outcome ++ " / use " ++ short (",".intercalate (trees.map (·.use)))⟩
+      else if openok == "noopen" then
+        -- a missing file / a file that is not gzip: the entry point reports the error of GetReader
+        (if outcome == "err" && recs.isEmpty then ⟨.pass, tags, ""⟩ else ⟨.tie, tags, "model: the file cannot be opened, err"⟩)
+      else
+        match tieModel fmt "0" bytes decoded outcome recs with
+        | none => ⟨.pass, tags, ""⟩
+        | some d => ⟨.tie, tags, d⟩
+    | _, _ => bad "C02.file fields"
+  | "dec", [fmt, input, outcome, recsS, decodedGo, expected, kind] =>
+    match unescapeToBytes input, parseRecs recsS with
+    | some _, some recs =>
+      let trees := recs.filter (·.isTree)
+      let tags := ["dec", "dec-" ++ fmt, "nontrivial", "out-" ++ (if outcomeAllowed outcome then outcome else "crash")] ++
+        tagIf (expected == "E") "dec-corrupted" ++ tagIf (trees.length ≥ 1) "delivered" ++ ["deckind-" ++ kind]
+      if !(readOK outcome recs) then
+        ⟨.oracle, tags, "reader outcome " ++ short outcome ++ " / use " ++ short (",".intercalate (trees.map (·.use)))⟩
+      else if decodedGo != expected then
+        ⟨.tie, tags, "the decoder does not give the generator's structure: " ++ short decodedGo⟩
+      else
+        match tieDecoded fmt expected outcome recs with
+        | none => ⟨.pass, tags, ""⟩
+        | some d => ⟨.tie, tags, d⟩
+    | _, _ => bad "C02.dec fields"
   | "nestx", [fmt, depthS, outcome, use] =>
     let tags := ["nest", "nest-" ++ fmt, "nontrivial"]
     if outcomeAllowed outcome && (use == "" || useAllowed use) then ⟨.pass, tags ++ ["out-" ++ outcome], ""⟩
